@@ -96,15 +96,15 @@ theorem kdb_single_element (P : KeyPrims) (pw : Str) (buf : Bytes) (view : XmlVi
         = .key (P.sha256 (P.sha256 (P.utf8 pw) ++ keyfileKey P buf view))) := by
   refine ⟨fun h => by simp [compositeKdb, keyElements, h], by simp [compositeKdb, keyElements]⟩
 
-/-- "never a panic" for KDB at full strength -/
-def C20_kdb_nopanic_full : Prop :=
-  ∀ (P : KeyPrims) (c : Creds), compositeKdb P c ≠ .panicNot32
+/-- KDB: a lone element of any other length is rejected as an incorrect key (the `unwrap` panic of site A36 was
+    repaired in /repo); it is never used as a key -/
+theorem kdb_single_element_not32 (P : KeyPrims) (c : Creds) (e : Bytes)
+    (h : keyElements P c = some [e]) (hl : e.length ≠ 32) : compositeKdb P c = .errNot32 := by
+  simp [compositeKdb, h, hl]
 
-/-- false on the unchanged code: a lone key-file element that is not 32 bytes long (e.g. a version-1 XML
-    key file whose base64 payload decodes to 3 bytes) makes `parse_kdb` panic (site A36; recorded under C06) -/
-theorem C20_kdb_nopanic_full_false : ¬ C20_kdb_nopanic_full := by
-  intro h
-  let P : KeyPrims := ⟨fun _ => [], fun _ => [], fun _ => some [1, 2, 3], fun _ => none⟩
-  exact h P ⟨none, some ([], .wellFormed none (some ['A']))⟩ (by decide)
+/-- witness: a version-1 XML key file whose base64 payload decodes to 3 bytes -/
+theorem kdb_not32_witness :
+    compositeKdb ⟨fun _ => [], fun _ => [], fun _ => some [1, 2, 3], fun _ => none⟩
+      ⟨none, some ([], .wellFormed none (some ['A']))⟩ = .errNot32 := by decide
 
 end Kp.Key
